@@ -1,5 +1,6 @@
 import os, sys
-from vrun import H, VERIF, known_findings
+from vrun import H, VERIF
+import vrun
 sys.path.insert(0, os.path.join(VERIF, "engines", "kani", "appender"))
 import gen_c15  # noqa: E402
 
@@ -21,11 +22,10 @@ def _hs():
     hs.append(H("c15::c15_counter_monotone", desc="ErrorCounter counts exactly the writes that met a full queue (two clones, "
                 "write and write_all); accepted write leaves it unchanged", sym="line byte"))
     hs.append(H("c15::c15_reach", kind="reach", desc="vacuity twin"))
-    # recorded-not-repaired role: only asserted (and allowed to fail as KNOWN-FINDING) once the lead has listed it
-    if ("C15", ROLE) in known_findings():
-        hs.append(H("c15::c15_flush_fault_at_shutdown", kind="finding", role=ROLE,
-                    desc="a failed flush in the batch that took Msg::Shutdown must still end the worker (strong form of the "
-                         "shutdown clause)", sym="which flush fails, line byte"))
+    # recorded-not-repaired role (KNOWN_FINDINGS.txt): asserted on every run, so a repair shows up as a stale entry
+    hs.append(H("c15::c15_flush_fault_at_shutdown", kind="finding", role=ROLE,
+                desc="a failed flush in the batch that took Msg::Shutdown must still end the worker (strong form of the "
+                     "shutdown clause)", sym="which flush fails, line byte"))
     return hs
 
 
@@ -91,3 +91,21 @@ SPEC = {
     "explanation": "schedules x capacities x write-fault positions enumerated exhaustively for <= 3 lines; each decided by the "
                    "solver for all line contents, producer assignments and flush failures",
 }
+
+
+def run(tier, seed):
+    """the thorough tier enumerates every schedule for the bound; the quick tier a named subset: say which"""
+    fam = _fam if tier == "thorough" else [x for x in _fam if gen_c15.is_quick(*x)]
+    SPEC["extra_coverage"] = {
+        "schedules": gen_c15.vectors_in(fam), "runs": len(fam),
+        "schedules_for_bound": gen_c15.vectors_in(_fam), "runs_for_bound": len(_fam),
+        "exhaustive": tier == "thorough",
+        "enumerated_not_symbolic": "schedule vector, capacity in {1,2}, set of failing write_all calls, lossy/non-lossy "
+                                   "(each symbolic alone: no verdict in 400 s); symbolic: line bytes, producer of each line, "
+                                   "failing flush calls",
+    }
+    if tier != "thorough":
+        SPEC["explanation"] = ("quick tier: every schedule of <= 1 line plus the 2- and 3-line schedules that force a full "
+                               "queue, an empty queue and a fault next to Shutdown (%d of %d runs); " % (len(fam), len(_fam))
+                               + SPEC["explanation"])
+    return vrun.run_check(SPEC, tier, seed)
